@@ -77,6 +77,9 @@ type FOOp struct {
 	Cancel    string `json:"cancel,omitempty"`     // "", before (ctx already cancelled), after (cancel after return), deadline (deadline passes later)
 	MutateKey string `json:"mutate_key,omitempty"` // "", garbage, key:<i>
 	ReuseBuf  bool   `json:"reuse_buf,omitempty"`  // use the client's shared key buffer
+	// UseShared: the Get runs under the scenario's shared request context (one TTL cell shared by
+	// several goroutines) instead of a context of its own.
+	UseShared bool `json:"use_shared,omitempty"`
 }
 
 // FOFaults is the backend fault plan (ordinals are 0-based positions among wrapper calls).
@@ -100,6 +103,12 @@ type FOScenario struct {
 	Init     []FOInit `json:"init,omitempty"`
 	Clients  [][]FOOp `json:"clients"`
 	Faults   FOFaults `json:"faults,omitempty"`
+	// SharedCtxTTLNs != 0: a request context carrying this TTL is shared by all Gets with UseShared.
+	SharedCtxTTLNs int64 `json:"shared_ctx_ttl_ns,omitempty"`
+	// DefaultBackend: the Failover creates its own backend from BackendConfig (no wrapper seam:
+	// backend calls are not observed, backend faults cannot be injected).
+	DefaultBackend bool     `json:"default_backend,omitempty"`
+	BackendCfg     BEConfig `json:"backend_cfg,omitempty"`
 	// Followup makes the root run the C04 re-buildability phase after quiescence.
 	Followup bool `json:"followup,omitempty"`
 }
@@ -270,6 +279,8 @@ type foRun struct {
 
 	noFaults   bool
 	apiStopped bool
+
+	sharedCtx context.Context
 }
 
 func (r *foRun) cfgUpdateTTL() time.Duration {
@@ -563,6 +574,38 @@ func (r *foRun) construct() {
 	r.updateTTL = r.cfgUpdateTTL()
 	r.failedTTL = r.cfgFailedTTL()
 
+	if sc.DefaultBackend {
+		// the library creates backend and failure cache itself from BackendConfig
+		bc := sc.BackendCfg
+		lib := cache.Config{
+			TimeToLive: dur(sc.BackendTTLNs), ExpirationJitter: sc.BackendJitter,
+			CountSoftLimit: bc.CountSoftLimit, EvictFraction: bc.EvictFraction, EvictionStrategy: cache.EvictionStrategy(bc.Strategy),
+			DeleteExpiredJobInterval: dur(bc.JanitorIntervalNs), ItemsCountReportInterval: farFuture,
+		}
+
+		if sc.API == "failoverOf" {
+			f := cache.NewFailoverOf[Tok](cache.FailoverConfigOf[Tok]{
+				Name: "fo", BackendConfig: lib,
+				FailedUpdateTTL: dur(sc.Cfg.FailedUpdateTTLNs), UpdateTTL: dur(sc.Cfg.UpdateTTLNs),
+				SyncUpdate: sc.Cfg.SyncUpdate, SyncRead: sc.Cfg.SyncRead, MaxStaleness: dur(sc.Cfg.MaxStalenessNs),
+				FailHard: sc.Cfg.FailHard, Logger: logger, Stats: stats,
+			}.Use)
+			r.api = genAPI{f}
+		} else {
+			f := cache.NewFailover(cache.FailoverConfig{
+				Name: "fo", BackendConfig: lib,
+				FailedUpdateTTL: dur(sc.Cfg.FailedUpdateTTLNs), UpdateTTL: dur(sc.Cfg.UpdateTTLNs),
+				SyncUpdate: sc.Cfg.SyncUpdate, SyncRead: sc.Cfg.SyncRead, MaxStaleness: dur(sc.Cfg.MaxStalenessNs),
+				FailHard: sc.Cfg.FailHard, Logger: logger, Stats: stats,
+			}.Use)
+			r.api = plainAPI{f}
+		}
+
+		e.cleanup = append(e.cleanup, r.stopAPI)
+
+		return
+	}
+
 	if sc.API == "failoverOf" {
 		if r.be.gen == nil {
 			panic("failoverOf needs shardedOf backend")
@@ -670,6 +713,10 @@ func (r *foRun) doGet(ci, oi int, op *FOOp, shared []byte) []byte {
 
 	ctx := context.WithValue(context.Background(), markerKey{}, "marker")
 
+	if op.UseShared && r.sharedCtx != nil {
+		ctx = r.sharedCtx
+	}
+
 	var cancel context.CancelFunc
 
 	switch op.Cancel {
@@ -682,7 +729,7 @@ func (r *foRun) doGet(ci, oi int, op *FOOp, shared []byte) []byte {
 		ctx, cancel = context.WithTimeout(ctx, time.Millisecond)
 	}
 
-	if op.HasCtxTTL {
+	if op.HasCtxTTL && !(op.UseShared && r.sharedCtx != nil) {
 		ctx = cache.WithTTL(ctx, dur(op.CtxTTLNs), false)
 	}
 
@@ -897,6 +944,10 @@ func runFO(e *env) {
 	r.initState()
 	e.setup = false
 
+	if r.sc.SharedCtxTTLNs != 0 {
+		r.sharedCtx = cache.WithTTL(context.WithValue(context.Background(), markerKey{}, "marker"), dur(r.sc.SharedCtxTTLNs), false)
+	}
+
 	r.spawnClients()
 
 	stuckRule := ""
@@ -918,7 +969,10 @@ func runFO(e *env) {
 
 	// Stop janitors and let them exit.
 	r.stopAPI()
-	r.be.stop()
+
+	if r.be.stop != nil {
+		r.be.stop()
+	}
 
 	if v := e.s.Run(); v != zs.Quiescent && quiescent && e.out.Internal == "" && len(e.out.Violations) == 0 {
 		e.out.Internal = "janitors did not stop: " + e.s.StuckInfo
